@@ -7,6 +7,7 @@
   this file.  Adding a further method with a fresh "/tag" does not (only `methods_known` would
   then have to be extended, because the specification lists the methods it knows).
 -/
+import Glb.Generated.StatusHttpd
 import Glb.Generated.Httpd
 import Glb.Spec.RouteList
 
@@ -44,5 +45,8 @@ theorem id_counter_shape :
 /-- below the width of the field the machine counter IS the natural number the model counts with -/
 theorem id_counter_exact (n : Nat) (h : n < 2 ^ storeIDBits) : n % 2 ^ storeIDBits = n :=
   Nat.mod_eq_of_lt h
+
+/-- the extractor of this area recognised the source as it is on this run (a refusal removes `ok`) -/
+theorem extractor_ok : Glb.Generated.StatusHttpd.ok = () := rfl
 
 end Glb.Tie.Httpd
